@@ -46,14 +46,13 @@ class SymFloat:
             raise ValueError("cannot convert float NaN to integer")
         if bool(SymBool(z3.fpIsInf(self.t))):
             raise OverflowError("cannot convert float infinity to integer")
-        lim = z3.FPVal(2.0 ** 100, F64)
+        lim = z3.FPVal(2.0 ** 62, F64)
         if bool(SymBool(z3.Or(z3.fpGEQ(self.t, lim), z3.fpLEQ(self.t, -lim)))):
-            raise Unsupported("float beyond 2**100 converted to int")
+            raise Unsupported("float beyond 2**62 converted to int")
 
     def _to_int(self, rm):
         self._guard_int()
-        t = z3.fpToSBV(rm, self.t, z3.BitVecSort(W))
-        return SymInt(t, -(1 << 100), 1 << 100)
+        return _int_of_integral(z3.fpRoundToIntegral(rm, self.t))
 
     def __int__(self):
         raise Unsupported("int() must go through the substituted builtin")
@@ -73,7 +72,7 @@ class SymFloat:
             raise Unsupported("round(x, ndigits) on symbolic float")
         self._guard_int()
         r = z3.fpRoundToIntegral(RNE, self.t)
-        return SymInt(z3.fpToSBV(RTZ, r, z3.BitVecSort(W)), -(1 << 100), 1 << 100)
+        return _int_of_integral(r)
 
     def ceil(self):
         if self.ratio is not None:
@@ -137,6 +136,12 @@ class SymFloat:
         return SymInt(z3.ZeroExt(W - 64, z3.fpToIEEEBV(self.t)), 0, (1 << 64) - 1)
 
 
+def _int_of_integral(r):
+    """SymInt equal to the integral FP value r; keeps r so that a later int->float conversion of the
+    very same value does not go through fpToSBV/fpSignedToFP."""
+    return SymInt(z3.SignExt(W - 64, z3.fpToSBV(RTZ, r, z3.BitVecSort(64))), -(1 << 62), 1 << 62, fp=r)
+
+
 def _ite_int(c, a, b):
     from .core import _lift
     a = _lift(a)
@@ -156,8 +161,18 @@ def lift(x):
     if isinstance(x, SymBool):
         x = x._as_int()
     if isinstance(x, SymInt):
-        return SymFloat(z3.fpSignedToFP(RNE, x.t, F64))
+        if x.fp is not None:
+            return SymFloat(x.fp)
+        return SymFloat(z3.fpSignedToFP(RNE, _narrow(x), F64))
     return None
+
+
+def _narrow(x):
+    """the narrowest of 32/64/128-bit signed views that holds SymInt x (cheaper conversions)"""
+    for bits in (32, 64):
+        if -(1 << (bits - 1)) <= x.lo and x.hi < (1 << (bits - 1)):
+            return z3.Extract(bits - 1, 0, x.t)
+    return x.t
 
 
 def _is_pow2_float(d):
